@@ -81,7 +81,7 @@ class StandardNode(XmlNode):
         )
 
         if obj is None and not self.nillable:
-            obj = ""
+            obj = b"" if self.datatype.type is bytes else ""
 
         if self.datatype.wrapper:
             obj = self.datatype.wrapper(obj)
